@@ -69,8 +69,9 @@ def batch_entry(modname, cache, pkgkind, seed, frm, count, progress):
         raise core.HarnessError("wrong dtaidistance on path: " + dtaidistance.__file__)
     mod = _load(modname)
     pfd = os.open(progress, os.O_WRONLY | os.O_CREAT, 0o644) if progress else None
-    res = {"runs": 0, "ops": 0, "violations": [], "hashes": set(), "counters": {}, "samples": [], "digest": []}
+    res = {"runs": 0, "ops": 0, "violations": [], "hashes": set(), "counters": {}, "samples": [], "digest": [], "known": {}}
     cnt = res["counters"]
+    known = core.load_known_findings(mod.PROP)
     for i in range(frm, frm + count):
         rng = core.Streams(core.derive(seed, mod.PROP, i))
         h = mod.gen_history(rng)
@@ -87,9 +88,20 @@ def batch_entry(modname, cache, pkgkind, seed, frm, count, progress):
         if len(res["samples"]) < 1 and not r["violations"] and i % 53 == 7:
             res["samples"].append(h)
         if r["violations"]:
-            res["violations"].append({"index": i, "history": h, "violations": r["violations"]})
-            if len(res["violations"]) >= 8:
-                break
+            # violations whose call-site signature is a listed known finding are counted and one example kept; they neither
+            # stop the batch nor hide other violations of the same history
+            fresh = []
+            for v in r["violations"]:
+                k = core.match_known(known, mod.signature(h, v))
+                if k is None:
+                    fresh.append(v)
+                else:
+                    ent = res["known"].setdefault(k["id"], {"count": 0, "index": i, "history": h, "violation": v})
+                    ent["count"] += 1
+            if fresh:
+                res["violations"].append({"index": i, "history": h, "violations": fresh})
+                if len(res["violations"]) >= 8:
+                    break
     res["hashes"] = sorted(res["hashes"])
     res["digest"] = core.hash_obj(res["digest"])
     if pfd is not None:
@@ -162,6 +174,8 @@ class Runner:
 
     def minimise(self, history, vclass):
         cur = history
+        if vclass in getattr(self.mod, "NO_MINIMISE", ()):
+            return cur
         # 1. ddmin over the op list (batched: each ddmin step evaluates its candidates in one child process)
         ops = list(cur["ops"])
         n = 2
@@ -215,6 +229,7 @@ class Runner:
         try:
             done, wall = core.fanout_isolated("sim.sessions", "batch_entry", tasks, task_wall=getattr(mod, "TASK_WALL", 3000), stop_when=stop_when)
             runs = ops = 0
+            known_seen = {}
             cnt = {}
             hashes = set()
             samples = []
@@ -237,6 +252,9 @@ class Runner:
                         raise core.HarnessError("%s worker died (history %d in flight) but the history alone does not reproduce it: %s" % (PROP, idx, r["stderr"][-1500:]))
                     continue
                 runs += r["runs"]; ops += r["ops"]
+                for kid, ent in r.get("known", {}).items():
+                    e0 = known_seen.setdefault(kid, {"count": 0, "index": ent["index"], "history": ent["history"], "violation": ent["violation"]})
+                    e0["count"] += ent["count"]
                 for k, v in r["counters"].items():
                     cnt[k] = cnt.get(k, 0) + v
                 hashes.update(r["hashes"])
@@ -250,6 +268,14 @@ class Runner:
                  (PROP, runs, ops, len(hashes), len(viols), wall))
         known = core.load_known_findings(PROP)
         new_violations, known_hits = [], []
+        for kid in sorted(known_seen):
+            ent = known_seen[kid]
+            k = next(e for e in known if e["id"] == kid)
+            # the listed finding must still reproduce from its example, in a fresh process
+            if not self.fails(ent["history"], ent["violation"]["class"]):
+                raise core.HarnessError("%s known finding %s was matched in the batch but does not reproduce in a fresh process" % (PROP, kid))
+            known_hits.append(k)
+            cnt["known_finding:" + kid] = ent["count"]
         import glob
         for old in glob.glob(os.path.join(core.REPLAY_DIR, PROP + "-*.json")):
             os.remove(old)
